@@ -396,6 +396,7 @@ void run(size_t idx) {
 		NifFile nif;
 		if (loadNif(nif, m.bytes) != 0) return;
 		std::string what = "api:" + m.desc;
+		if (idx % 7 == 3 && permutePartitionVertexMaps(nif, rng) > 0) what += " [partition vertex maps permuted]";
 		bool strips = false;
 		if (idx % 5 == 4 && (idx % 6) < 3) {   // OB/FO3/SK: strip geometry
 			auto shapes = nif.GetShapes();
